@@ -104,31 +104,7 @@ def run(ctx):
         if lab not in labels:
             ctx.violation("BELOW-FLOOR", "push-outcome|" + lab, where(an.push), "no push_byte outcome %s" % lab)
     # ---- FINAL
-    for c in cases(A, an.finalize):
-        raw0 = c["obj0"].elems[an.i_raw].lin
-        for s2, var, pay in split_enum(ip, c["st"], c["ret"], "finalize"):
-            ctx.count("R-C17-FINAL")
-            if var == 0:
-                ok = c["key"] == an.v_done or s2.prove_eq0(raw0)
-                msg = "finalize returns None although bytes may be pending (counter %s)" % s2.describe(raw0)
-            else:
-                e = pay[0]
-                ev = s2.const_of(e.disc)
-                n = e.pay.get(ev, ())
-                ok = ev == an.err_variants.get("DiscardedBytes") and len(n) == 1 and s2.prove_eq0(n[0].lin - raw0) and not lossy_syms(s2, n[0].lin)
-                msg = "finalize must report exactly the pending counter"
-            ctx.oblig(ok)
-            if not ok:
-                ctx.violation("R-C17-FINAL", "finalize|partition=%s|%s" % (c["key"], "None" if var == 0 else "Some"), where(an.finalize),
-                              "finalize() from state #%s: %s" % (c["key"], msg))
-    for c in cases(A, an.reset):
-        ctx.count("R-C17-FINAL")
-        raw0 = c["obj0"].elems[an.i_raw].lin
-        p0 = Lin.const(0) if c["key"] == an.v_done else raw0
-        ok = isinstance(c["ret"], VInt) and c["st"].prove_eq0(c["ret"].lin - p0) and not lossy_syms(c["st"], c["ret"].lin)
-        ctx.oblig(ok)
-        if not ok:
-            ctx.violation("R-C17-FINAL", "reset|partition=%s" % (c["key"],), where(an.reset), "reset() must return exactly the pending counter")
+    check_final_reset(ctx, A, F, an, "R-C17-FINAL")
     ctx.cov.update({"invariant": A.inv_info.get(NOD), "push_outcome_labels": sorted(labels)})
     ctx.assumptions = [ASSUMPTIONS[k] for k in ("A1", "A2", "A3")]
     ctx.explanation = (
